@@ -80,8 +80,10 @@ def sortRat (l : List Rat) : List Rat := l.foldr insertRat []
 def outerJoin (idx pts : List Rat) : List Rat :=
   sortRat (pts ++ idx.filter fun t => !pts.contains t)
 
+/-- `full_time_points[(full_time_points > t_start) & (full_time_points <= t_end)]`; the two comparison
+    operators are read from the source (`Gen.selectLo`, `Gen.selectHi`) -/
 def select (full : List Rat) (lo hi : Rat) : List Rat :=
-  full.filter fun t => lo < t && t ≤ hi
+  full.filter fun t => Gen.selectLo.eval t lo && Gen.selectHi.eval t hi
 
 def ptcLoop {σ} (S : Sys σ) (full : List Rat) : Rat → Sim σ → Protocol → Out (Sim σ)
   | _, s, [] => (s, none)
@@ -104,7 +106,7 @@ def simulateProtocolTC {σ} (S : Sys σ) (s : Sim σ) (prot : Protocol) (pts : L
     match pts'.getLast? with
     | none => (s, some .indexError)
     | some last =>
-      if last ≤ tStart then (s, some .valueError) else
+      if Gen.protocolTCRefusal.eval last tStart then (s, some .valueError) else
       match prot'.getLast? with
       | none => (s, some .indexError)
       | some _ => ptcLoop S (outerJoin (prot'.map (·.1)) pts') tStart s prot'
@@ -172,20 +174,16 @@ def Spec.runP {σ} (S : Sys σ) (a : Spec σ) : List OpP → Spec σ × List (Op
     let rr := Spec.runP S r.1 rest
     (rr.1, r.2 :: rr.2)
 
-/-! ### the class of histories the theorems cover -/
+/-! ### the protocols the theorems cover -/
 
 /-- positive durations, same parameter names in every step -/
 def wfSteps (steps : List PStep) : Bool := steps.all (fun s => decide (0 < s.1)) && uniform steps
 
-def nextP (h : HSt) : OpP → Option HSt
-  | .basic op => h.next op
-  | .protocol steps _ => if h.simOK && wfSteps steps then some ⟨false, true⟩ else none
-  | .protocolTC steps _ _ => if h.simOK && wfSteps steps then some ⟨false, true⟩ else none
-
-def okHistP (h : HSt) : List OpP → Bool
-  | [] => true
-  | op :: rest => match nextP h op with
-    | none => false
-    | some h' => okHistP h' rest
+/-- every protocol of the history is well-formed (the property's quantifier: positive durations, the
+    documented same-parameters-in-every-step form) -/
+def wfOp : OpP → Bool
+  | .basic _ => true
+  | .protocol steps _ => wfSteps steps
+  | .protocolTC steps _ _ => wfSteps steps
 
 end Mxl.C14
